@@ -24,8 +24,8 @@ func (r *Rng) Intn(n int) int {
 	}
 	return int(r.U64() % uint64(n))
 }
-func (r *Rng) Bool() bool { return r.U64()&1 == 1 }
-func (r *Rng) Pick(xs []int) int { return xs[r.Intn(len(xs))] }
+func (r *Rng) Bool() bool               { return r.U64()&1 == 1 }
+func (r *Rng) Pick(xs []int) int        { return xs[r.Intn(len(xs))] }
 func (r *Rng) PickS(xs []string) string { return xs[r.Intn(len(xs))] }
 
 // GenBytes is the payload generator shared with ocaml/util.ml (xorshift64).
